@@ -115,6 +115,9 @@ def expr_sql(e, colref, outer_ref, rs):
     if op == "scalarsub":
         sub, _ = plan_sql(e["sub"], rs, colref)
         return f"({sub})"
+    if op == "quant":       # e <cmp> ANY / ALL (subquery)
+        sub, _ = plan_sql(e["sub"], rs, colref)
+        return f"({X(e['e'])} {BINOPS[e['f']]} {'ALL' if e['all'] else 'ANY'} ({sub}))"
     raise ValueError(op)
 
 
@@ -132,6 +135,16 @@ def width(p, schemas):
         return len(p["keys"]) + len(p["aggs"])
     if op == "setop":
         return width(p["l"], schemas)
+    if op == "window":
+        return width(p["src"], schemas) + 1
+    if op in ("distincton", "pack"):
+        return width(p["src"], schemas)
+    if op == "lateral":
+        return p["lw"] + p["rw"]
+    if op == "aggsets":
+        return len(p["keys"]) + len(p["aggs"])
+    if op == "ufilter":
+        return len(schemas[p["t"] - 1])
     raise ValueError(op)
 
 
@@ -154,6 +167,24 @@ def plan_sql(p, rs, outer_ref):
         sql, cols = plan_sql(q, rs, outer_ref)
         return f"({sql}) AS {alias}", (lambda i: f"{alias}.{cols[i-1]}"), cols
 
+    if op == "filter" and p.get("having") and p["src"]["op"] == "agg":
+        # the filter is written as the HAVING clause of the aggregate query below it
+        src = p["src"]
+        a, g = rs.alias("s"), rs.alias("g")
+        frm, ref, cols = child(src["src"], a)
+        nk = len(src["keys"])
+        inner = [f"{expr_sql(k, ref, outer_ref, rs)} AS {g}k{j+1}" for j, k in enumerate(src["keys"])]
+        inner += [f"{expr_sql(ag['e'], ref, outer_ref, rs)} AS {g}x{j+1}" for j, ag in enumerate(src["aggs"])]
+        terms = [f"{g}.{g}k{j+1}" for j in range(nk)]
+        for j, ag in enumerate(src["aggs"]):
+            d = "DISTINCT " if ag["distinct"] else ""
+            terms.append("count(*)" if ag["f"] == "countstar" else f"{ag['f']}({d}{g}.{g}x{j+1})")
+        outs = [f"{t} AS {out(j+1)}" for j, t in enumerate(terms)]
+        sql = f"SELECT {', '.join(outs)} FROM (SELECT {', '.join(inner)} FROM {frm}) AS {g}"
+        if nk:
+            sql += " GROUP BY " + ", ".join(terms[:nk])
+        sql += " HAVING " + expr_sql(p["p"], lambda i: terms[i - 1], outer_ref, rs)
+        return sql, [out(j + 1) for j in range(len(terms))]
     if op == "filter":
         a = rs.alias("s")
         frm, ref, cols = child(p["src"], a)
@@ -225,6 +256,70 @@ def plan_sql(p, rs, outer_ref):
         if p["skip"] > 0 or "skip_sql" in p:
             base += f" OFFSET {p.get('skip_sql', p['skip'])}"
         return base, cols
+    if op == "window":
+        a = rs.alias("s")
+        frm, ref, cols = child(p["src"], a)
+        n = len(cols)
+        sel = [f"{ref(i+1)} AS {out(i+1)}" for i in range(n)]
+        f = p["f"]
+        call = {"rank": "rank()", "dense_rank": "dense_rank()", "row_number": "row_number()", "countstar": "count(*)"}.get(f) or f"{f}({ref(p['arg'])})"
+        over = []
+        if p["part"]:
+            over.append("PARTITION BY " + ", ".join(ref(i) for i in p["part"]))
+        if p["order"]:
+            over.append("ORDER BY " + ", ".join(f"{ref(k['i'])} {'ASC' if k['asc'] else 'DESC'} NULLS {'FIRST' if k['nf'] else 'LAST'}" for k in p["order"]))
+        sel.append(f"{call} OVER ({' '.join(over)}) AS {out(n+1)}")
+        return f"SELECT {', '.join(sel)} FROM {frm}", [out(i + 1) for i in range(n + 1)]
+    if op == "lateral":
+        la, ra = rs.alias("l"), rs.alias("r")
+        lfrm, lref, lcols = child(p["l"], la)
+        rsql, rcols = plan_sql(p["r"], rs, lref)          # the right side sees the current left row as its outer row
+        lw = len(lcols)
+        ref = lambda i: lref(i) if i <= lw else f"{ra}.{rcols[i - lw - 1]}"
+        n = lw + len(rcols)
+        sel = ", ".join(f"{ref(i)} AS {out(i)}" for i in range(1, n + 1))
+        jn = f"CROSS JOIN LATERAL ({rsql}) AS {ra}" if p["jt"] == "inner" else f"LEFT JOIN LATERAL ({rsql}) AS {ra} ON TRUE"
+        return f"SELECT {sel} FROM {lfrm} {jn}", [out(i) for i in range(1, n + 1)]
+    if op == "aggsets":
+        a, g = rs.alias("s"), rs.alias("g")
+        frm, ref, cols = child(p["src"], a)
+        nk = len(p["keys"])
+        inner = [f"{expr_sql(k, ref, outer_ref, rs)} AS {g}k{j+1}" for j, k in enumerate(p["keys"])]
+        inner += [f"{expr_sql(ag['e'], ref, outer_ref, rs)} AS {g}x{j+1}" for j, ag in enumerate(p["aggs"])]
+        outs = [f"{g}.{g}k{j+1} AS {out(j+1)}" for j in range(nk)]
+        for j, ag in enumerate(p["aggs"]):
+            f = ag["f"]
+            d = "DISTINCT " if ag["distinct"] else ""
+            outs.append(("count(*)" if f == "countstar" else f"{f}({d}{g}.{g}x{j+1})") + f" AS {out(nk+j+1)}")
+        sets = ", ".join("(" + ", ".join(f"{g}.{g}k{j}" for j in sorted(st)) + ")" for st in p["sets"])
+        sql = f"SELECT {', '.join(outs)} FROM (SELECT {', '.join(inner)} FROM {frm}) AS {g} GROUP BY GROUPING SETS ({sets})"
+        return sql, [out(j + 1) for j in range(nk + len(p["aggs"]))]
+    if op == "distincton":
+        a = rs.alias("s")
+        frm, ref, cols = child(p["src"], a)
+        n = len(cols)
+        sel = ", ".join(f"{ref(i+1)} AS {out(i+1)}" for i in range(n))
+        on = ", ".join(ref(i + 1) for i in range(p["n"]))
+        order = ", ".join(f"{ref(i+1)} ASC NULLS LAST" for i in range(n))
+        return f"SELECT DISTINCT ON ({on}) {sel} FROM {frm} ORDER BY {order}", [out(i + 1) for i in range(n)]
+    if op == "pack":
+        # one struct column; parents read its fields:  alias.<me>s['f<i>']
+        a = rs.alias("s")
+        frm, ref, cols = child(p["src"], a)
+        flds = ", ".join(f"'f{i+1}', {ref(i+1)}" for i in range(len(cols)))
+        return f"SELECT named_struct({flds}) AS {me}s FROM {frm}", [f"{me}s['f{i+1}']" for i in range(len(cols))]
+    if op == "ufilter":
+        # every branch has the same select list and aliases (the shape the unions-to-filter rewrite looks for)
+        w = len(_SCHEMAS[p["t"] - 1])
+        base = "SELECT " + ", ".join(f"c{i} AS {out(i)}" for i in range(1, w + 1)) + f" FROM t{p['t']}"
+        cref = lambda i: f"c{i}"
+        kw = " UNION ALL " if p["all"] else " UNION "
+        if p.get("wrap"):
+            # the filter sits above the aliasing projection, in every branch under the same alias
+            sel = ", ".join(f"u{me}.{out(i)} AS {out(i)}" for i in range(1, w + 1))
+            aref = lambda i: f"u{me}.{out(i)}"
+            return kw.join(f"SELECT {sel} FROM ({base}) AS u{me} WHERE {expr_sql(pr, aref, outer_ref, rs)}" for pr in p["ps"]), [out(i) for i in range(1, w + 1)]
+        return kw.join(f"{base} WHERE {expr_sql(pr, cref, outer_ref, rs)}" for pr in p["ps"]), [out(i) for i in range(1, w + 1)]
     raise ValueError(op)
 
 
